@@ -279,9 +279,11 @@ func Main(h Harness) {
 		list     = flag.Bool("list", false, "list configurations")
 		racepass = flag.Bool("racepass", false, "this is the -race build: collect race detector reports per execution")
 		racelog  = flag.String("racelog", "", "GORACE log_path prefix")
+		unlockPt = flag.Bool("unlockpoints", false, "scheduling point after every Unlock/RUnlock as well")
 	)
 	QuietLogs()
 	flag.Parse()
+	vrt.DefaultUnlockPoints = *unlockPt
 	if err := vrt.SelfTest(); err != nil {
 		fmt.Fprintln(os.Stderr, "MACHINERY:", err)
 		os.Exit(2)
@@ -702,6 +704,7 @@ func (d *driver) run() int {
 				"known_findings_matched":        kh,
 				"engine":                        "E1 schedule explorer (vrt+xplore)",
 				"race_build":                    vrt.RaceMode,
+				"unlock_points":                 vrt.DefaultUnlockPoints,
 			},
 			"assumptions": []string{
 				"vrt object models decide enabledness; the real primitive is executed underneath",
